@@ -75,6 +75,15 @@ Definition choices_all_used (d : ddnnf) (ts : list Z) (fuel : nat) (amount : Z) 
   let '(_, rest, _, _) := sample_node_c d ts fuel amount i chs in
   match rest with [] => true | _ => false end.
 
+(* the contract, for the stream handed to uniform_random_sampling *)
+Definition urs_choices_okb (d : ddnnf) (A : cfg) (amount : Z) (chs : list choice) (s : scratch) : bool :=
+  match preprocess d A s with
+  | None => true
+  | Some s1 =>
+    let '(s2, r) := execute_query d A s1 in
+    if 0 <? r then choices_okb d (temps s2) (length (circ d)) amount (rootn d) chs else true
+  end.
+
 (* ---- sample_node_c is sample_node plus one flag ---- *)
 
 Lemma fold_left_rel {A B X} (R : A -> B -> Prop) (f : A -> X -> A) (g : B -> X -> B) (l : list X) :
